@@ -132,7 +132,7 @@ func (x *Abs) Week(w RawWeek) J {
 	if sd.By == "none" {
 		// Not a signature made by the harness: the server's own. Ground truth
 		// here needs the verifier; the server key is the only candidate.
-		if glow.Verify(x.KR.Pub("srv"), RefWeekSigningBytes(w), w.Signature) {
+		if x.KR.Has("srv") && glow.Verify(x.KR.Pub("srv"), RefWeekSigningBytes(w), w.Signature) {
 			sd = SigDesc{By: "srv", Ok: true, Tag: sd.Tag}
 		}
 	}
